@@ -722,6 +722,15 @@ func (c *HostClient) doNonNilReqResp(req *protocol.Request, resp *protocol.Respo
 		return retry, err
 	}
 	shouldCloseConn = resetConnection || req.ConnectionClose() || resp.ConnectionClose()
+	if resp.SkipBody && !req.Header.IsHead() && !req.Header.IsConnect() &&
+		!resp.Header.MustSkipContentLength() && resp.Header.ContentLength() != 0 {
+		// The application asked not to read the body of a response that has one: it is still on the wire,
+		// so the connection cannot serve another exchange.
+		shouldCloseConn = true
+	}
+	// The mark set above for a HEAD / CONNECT exchange is the client's, not the application's: a response
+	// object that is passed to the next call must not carry it over.
+	resp.SkipBody = customSkipBody
 
 	if resp.Header.StatusCode() == consts.StatusSwitchingProtocols &&
 		bytes.EqualFold(resp.Header.Peek(consts.HeaderConnection), bytestr.StrUpgrade) {
